@@ -21,6 +21,7 @@ import (
 	"io"
 	"net/http"
 	"net/http/httptest"
+	"net/url"
 	"os"
 	"path/filepath"
 	goruntime "runtime"
@@ -28,6 +29,7 @@ import (
 	"strconv"
 	"strings"
 	"sync"
+	"sync/atomic"
 	"time"
 
 	"github.com/go-openapi/loads"
@@ -755,8 +757,64 @@ type typedFile struct{ memFile }
 
 func (typedFile) ContentType() string { return "application/x-c04" }
 
+// errSource is the I/O error of a failing upload source.
+var errSource = fmt.Errorf("c04: the upload source failed")
+
+// failing makes the reads of a source fail once `left` more bytes have been delivered.
+type failing struct {
+	r    io.Reader
+	left int
+}
+
+func (f *failing) Read(p []byte) (int, error) {
+	if f.left <= 0 {
+		return 0, errSource
+	}
+	if len(p) > f.left {
+		p = p[:f.left]
+	}
+	n, err := f.r.Read(p)
+	f.left -= n
+	return n, err
+}
+
+// failingFile: a seekable in-memory file whose reads fail after some bytes (no WriteTo / ReadFrom short cuts: io.Copy reads it).
+type failingFile struct {
+	name string
+	rd   *bytes.Reader
+	f    *failing
+}
+
+func (f failingFile) Read(p []byte) (int, error)                { return f.f.Read(p) }
+func (f failingFile) Seek(off int64, whence int) (int64, error) { return f.rd.Seek(off, whence) }
+func (f failingFile) Name() string                              { return f.name }
+func (f failingFile) Close() error                              { return nil }
+
+type failingTyped struct{ failingFile }
+
+func (failingTyped) ContentType() string { return "application/x-c04" }
+
 // source opens the upload source of a file argument positioned at its offset, as the caller hands it over.
 func source(a Arg, cleanup *[]string) (runtime.NamedReadCloser, error) {
+	if a.Fails {
+		content := blob(a.Len, a.Seed, false)
+		off := a.Off
+		if off > len(content) {
+			off = len(content)
+		}
+		mf := memFile{Reader: bytes.NewReader(content), name: a.FileName}
+		if _, err := io.CopyN(io.Discard, mf, int64(off)); err != nil {
+			return nil, err
+		}
+		ff := failingFile{name: a.FileName, rd: mf.Reader, f: &failing{r: mf.Reader, left: a.FailAt}}
+		switch a.Src {
+		case "typed":
+			return failingTyped{ff}, nil
+		case "memseek":
+			return ff, nil
+		}
+		return runtime.NamedReader(a.FileName, ff.f), nil
+	}
 	content := blob(a.Len, a.Seed, false)
 	off := a.Off
 	if off > len(content) {
@@ -819,15 +877,38 @@ func mediaName(mt string) string {
 	return "none"
 }
 
+// staticQuery renders static query parameters as they are written into a base path or a path pattern
+func staticQuery(kvs []KV) string {
+	if len(kvs) == 0 {
+		return ""
+	}
+	parts := make([]string, 0, len(kvs))
+	for _, e := range kvs {
+		parts = append(parts, url.QueryEscape(e.K)+"="+url.QueryEscape(e.V))
+	}
+	return "?" + strings.Join(parts, "&")
+}
+
 func execute(c *drv.Ctx, d M) bool {
 	cs := caseFrom(d)
 	noEvent := func(i int, st Step) {
 		c.W.Event("exchange", M{"step": i + 1, "op": st.Op, "media": mediaName(st.Media), "supplied": []M{}, "setup": false, "err": true, "handled_op": "", "received": []M{},
 			"handler": M{"code": 0, "hdrs": []M{}, "body": ""}, "seen": M{"code": 0, "hdrs": []M{}, "body": ""}, "wire_path": []int{}, "wire_query": []int{}, "err_text": []int{}})
 	}
+	concurrent := cs.Conc > 1
+	if concurrent && cs.Yield {
+		// debug mode is read from the environment when the context, router and binders are constructed
+		os.Setenv("SWAGGER_DEBUG", "1")
+		prev := middleware.Logger
+		middleware.Logger = yieldLogger{}
+		defer func() {
+			os.Unsetenv("SWAGGER_DEBUG")
+			middleware.Logger = prev
+		}()
+	}
 	var b *built
 	var err error
-	if cs.Shared {
+	if cs.Shared && !(concurrent && cs.Yield) {
 		b, err = build(cs.API)
 	} else {
 		b, err = buildFresh(cs.API, cs.API.doc())
@@ -843,34 +924,99 @@ func execute(c *drv.Ctx, d M) bool {
 	active.h = b.handler
 	active.mu.Unlock()
 	// one Runtime for the whole session
-	rt := client.New(s.Listener.Addr().String(), cs.API.Base, []string{"http"})
+	rt := client.New(s.Listener.Addr().String(), cs.API.Base+staticQuery(cs.BaseStatic), []string{"http"})
 	rt.Consumers["application/octet-stream"] = runtime.ByteStreamConsumer()
-	rt.SetLogger(silentLogger{})
+	if !(concurrent && cs.Yield) {
+		rt.SetLogger(silentLogger{}) // (sets the middleware's logger too)
+	}
+	if cs.Via == "inproc" {
+		rt.Transport = tagTransport{inproc{}}
+	} else {
+		rt.Transport = tagTransport{wireTransport}
+	}
+	if cs.Reuse {
+		rt.EnableConnectionReuse()
+	}
+	ops := map[string]*Op{}
+	for j := range cs.API.Ops {
+		ops[cs.API.Ops[j].ID] = &cs.API.Ops[j]
+	}
 	nontrivial := false
-	for i := range cs.Steps {
-		st := &cs.Steps[i]
-		var op *Op
-		for j := range cs.API.Ops {
-			if cs.API.Ops[j].ID == st.Op {
-				op = &cs.API.Ops[j]
+	if !concurrent {
+		for i := range cs.Steps {
+			st := &cs.Steps[i]
+			op := ops[st.Op]
+			if op == nil {
+				noEvent(i, *st)
+				continue
+			}
+			x := newExchange(i+1, st)
+			seqMu.Lock()
+			seq = x
+			seqMu.Unlock()
+			ev, ok := exchangeOnce(rt, x, op)
+			c.W.Event("exchange", ev)
+			if ok {
+				nontrivial = true
 			}
 		}
-		if op == nil {
-			noEvent(i, *st)
+		return nontrivial
+	}
+	// concurrent: the calls are made Conc at a time, each by a goroutine of its own, through the one Runtime to the one
+	// server; every call keeps its own event, emitted in call order afterwards
+	if cs.Procs > 0 {
+		defer goruntime.GOMAXPROCS(goruntime.GOMAXPROCS(cs.Procs))
+	}
+	evs := make([]M, len(cs.Steps))
+	oks := make([]bool, len(cs.Steps))
+	for i := range cs.Steps {
+		batchCalls.Store(i+1, newExchange(i+1, &cs.Steps[i]))
+	}
+	var next int64 = -1
+	var wg sync.WaitGroup
+	start := make(chan struct{})
+	for w := 0; w < cs.Conc; w++ {
+		wg.Add(1)
+		go func() {
+			defer wg.Done()
+			g := gid()
+			<-start
+			for {
+				i := int(atomic.AddInt64(&next, 1))
+				if i >= len(cs.Steps) {
+					return
+				}
+				xv, _ := batchCalls.Load(i + 1)
+				x := xv.(*exchange)
+				op := ops[x.step.Op]
+				if op == nil {
+					continue
+				}
+				clientSlots.Store(g, x)
+				evs[i], oks[i] = exchangeOnce(rt, x, op)
+				clientSlots.Delete(g)
+			}
+		}()
+	}
+	close(start)
+	wg.Wait()
+	for i := range cs.Steps {
+		batchCalls.Delete(i + 1)
+		if evs[i] == nil {
+			noEvent(i, cs.Steps[i])
 			continue
 		}
-		if exchangeOnce(c, rt, i, st, op) {
+		c.W.Event("exchange", evs[i])
+		if oks[i] {
 			nontrivial = true
 		}
 	}
 	return nontrivial
 }
 
-func exchangeOnce(c *drv.Ctx, rt *client.Runtime, idx int, st *Step, op *Op) bool {
-	cur.mu.Lock()
-	cur.step, cur.handledOp, cur.received, cur.wirePath, cur.wireQuery = st, "", nil, "", ""
-	cur.handler = M{"code": 0, "hdrs": []M{}, "body": ""}
-	cur.mu.Unlock()
+// exchangeOnce makes the call x.step of operation op through rt and returns its event.
+func exchangeOnce(rt *client.Runtime, cur *exchange, op *Op) (M, bool) {
+	st, idx := cur.step, cur.idx-1
 
 	params := map[string]Param{}
 	for _, p := range op.Params {
@@ -951,7 +1097,7 @@ func exchangeOnce(c *drv.Ctx, rt *client.Runtime, idx int, st *Step, op *Op) boo
 		default:
 			vs = trace.BB(a.Vs)
 		}
-		supplied = append(supplied, M{"name": a.Name, "loc": p.Loc, "kind": p.Kind, "vs": vs, "off": off})
+		supplied = append(supplied, M{"name": a.Name, "loc": p.Loc, "kind": p.Kind, "vs": vs, "off": off, "fails": p.Loc == "file" && a.Fails})
 	}
 
 	seen := M{"code": 0, "hdrs": []M{}, "body": ""}
@@ -992,8 +1138,10 @@ func exchangeOnce(c *drv.Ctx, rt *client.Runtime, idx int, st *Step, op *Op) boo
 		seen = M{"code": resp.Code(), "hdrs": hs, "body": sha(canon)}
 		return nil, nil
 	})
-	rt.Debug = st.Debug
-	cop := &runtime.ClientOperation{ID: op.ID, Method: op.Method, PathPattern: op.path(), ProducesMediaTypes: op.Produces,
+	if rt.Debug != st.Debug {
+		rt.Debug = st.Debug
+	}
+	cop := &runtime.ClientOperation{ID: op.ID, Method: op.Method, PathPattern: op.path() + staticQuery(st.PatStatic), ProducesMediaTypes: op.Produces,
 		ConsumesMediaTypes: []string{st.Media}, Params: writer, Reader: reader}
 	switch st.Auth {
 	case "apikey":
@@ -1017,8 +1165,7 @@ func exchangeOnce(c *drv.Ctx, rt *client.Runtime, idx int, st *Step, op *Op) boo
 	if ev["received"] == nil || len(ev["received"].([]M)) == 0 {
 		ev["received"] = []M{}
 	}
-	c.W.Event("exchange", ev)
-	return callErr == nil && len(supplied) > 0
+	return ev, callErr == nil && len(supplied) > 0
 }
 
 // ---- generation ---------------------------------------------------------------------------
@@ -1245,6 +1392,8 @@ func generate(c *drv.Ctx) {
 	}
 	// (v)-(vii) upload sources at an offset; sessions: media-type sequences on parameter-free operations, sibling templates
 	genSessions(c, emit)
+	// (viii)-(xi) static query parameters, failing upload sources, connection re-use x chunked responses, concurrent batches
+	genRound3(c, emit)
 	c.Extra["exhaustive_cases"] = n
 	// (iv) seeded random: single calls on the shared servers, and sessions on servers of their own
 	nr, ns := 1500, 400
